@@ -74,6 +74,7 @@ def cases(tier, seed):
             case["filter_script"] = {"pattern": PATTERNS[int(rng.integers(len(PATTERNS)))],
                                      "sites": [["search"], ["poll"], ["es"], ["search", "poll"], ["es", "poll"]][int(rng.integers(5))]}
         out.append(case)
+    out += C.option_variation_slice("C03", tier, seed, kind="option-variation")
     return out
 
 
